@@ -21,8 +21,8 @@ BStates == { [mode |-> "acl", grant |-> "none", stmts |-> << >>],
              [mode |-> "policy", grant |-> "none", stmts |-> << [e |-> "Allow", p |-> "any", a |-> "all", r |-> "both"] >>],
              [mode |-> "policy", grant |-> "none", stmts |-> << [e |-> "Deny", p |-> "any", a |-> "all", r |-> "both"] >>] }
 
-NoSrc == [b |-> "A", key |-> "K1", ver |-> FALSE]
-Srcs(r) == IF r.shape = "copy" THEN [b : {"A", "B"}, key : {"K1", "K2"}, ver : BOOLEAN] ELSE {NoSrc}
+NoSrc == [b |-> "A", key |-> "K1", ver |-> FALSE, enc |-> FALSE]
+Srcs(r) == IF r.shape = "copy" THEN [b : {"A", "B"}, key : {"K1", "K2"}, ver : BOOLEAN, enc : {FALSE}] ELSE {NoSrc}
 Vers(r) == IF r.ver THEN BOOLEAN ELSE {FALSE}
 Keys(r) == IF r.path = "object" THEN {"K1", "K2"} ELSE {"K1"}
 
